@@ -5,7 +5,7 @@ Domain : operation lists over the tree's mjCCache (C++ class, driven through the
          in 3), populate(id, timestamp, with/without a resource provider), has(id), deleteAsset, removeModel,
          reset(model), reset(), setCapacity(0..200).  One list = one history on a fresh cache; interpreted against the
          real object and the reference model in one test function.  Second part: the same operation mix from 4 real
-         threads on one cache (native driver), invariants checked at quiescence.
+         threads on one cache (native driver), invariants checked at quiescence; in the thorough tier also under TSan.
 Oracle : Python reference model written from the comments in user_cache.h: Size() == sum of the sizes of held assets
          <= Capacity() after every operation; HasAsset <=> held, with the stored timestamp; PopulateData succeeds iff the
          asset is held and the resource is unmodified w.r.t. the stored timestamp, then hands out exactly the data of the
@@ -344,6 +344,27 @@ def main(ck):
   ck.run_hypothesis(stress, st.tuples(st.integers(1, 2 ** 40), st.integers(0, 1), st.sampled_from([60, 100, 150])),
                     ck.budget(150, 3000), name='cache-concurrent', shrink=False)
 
+  # ---- the same concurrent histories under ThreadSanitizer (native driver linked against the tsan build of the tree).
+  # Building the tsan variant of a tree takes minutes, so this part runs in the thorough tier (or with VERIF_C38_TSAN=1).
+  if not ck.quick or os.environ.get('VERIF_C38_TSAN') == '1':
+    src = os.path.join(vb.NATIVE, 'C38', 'cache_tsan_main.cc')
+    exe = vb.build_exe('c38_cache_tsan', [src], variant='tsan', extra_cflags=['-I' + os.path.join(vb.NATIVE, 'C38')])
+    env = dict(os.environ, TSAN_OPTIONS='halt_on_error=0 exitcode=66 report_signal_unsafe=0')
+    rounds = ck.budget(40, 400)
+    p = subprocess.run([exe, str(ck.seed), str(rounds), '4', '300'], capture_output=True, text=True, env=env, timeout=1500)
+    ok_rounds = p.stdout.count(' OK ')
+    ck.extra['tsan'] = dict(rounds=rounds, ok_rounds=ok_rounds, returncode=p.returncode)
+    ck.evaluations += ok_rounds
+    ck.label('tsan:rounds-ok')
+    if 'ThreadSanitizer' in p.stderr:
+      rep = p.stderr[p.stderr.index('WARNING: ThreadSanitizer') if 'WARNING: ThreadSanitizer' in p.stderr else 0:][:3000]
+      ck.violation('ThreadSanitizer report while 4 threads use one mjCCache:\n' + rep,
+                   dict(cmd=[exe, str(ck.seed), str(rounds), '4', '300']), bucket='tsan-race')
+    elif p.returncode != 0 or ' BAD ' in p.stdout:
+      bad = [l for l in p.stdout.split('\n') if ' BAD ' in l][:3]
+      ck.violation('concurrent mjCCache driver (tsan build): rc=%d %s %s' % (p.returncode, bad, p.stderr[-500:]),
+                   dict(cmd=[exe, str(ck.seed), str(rounds), '4', '300']), bucket='concurrent-size')
+
 
 LEVEL = 'exploration'
 TECHNIQUE = ('model-based property testing: Hypothesis-generated operation histories interpreted against the tree\'s '
@@ -354,8 +375,10 @@ the tree's mjCCache and against a reference model written from the header commen
 capacity, membership and timestamp of every id, the identity and integrity of looked-up data and the number of live data blobs
 are compared; eviction order on SetCapacity is compared with (access count, insertion number). A second part applies the same
 operation mix from 4 real threads and checks size accounting, data identity and blob lifetime at quiescence.'''
-LEVEL_NOTE = '''Sampled histories, not exhaustive. The concurrent part runs on the uninstrumented build (no TSan): it detects
-corrupted accounting, wrong data or crashes, not data races as such; schedules are whatever the OS produces. Behaviour the
+LEVEL_NOTE = '''Sampled histories, not exhaustive. Concurrent part: quick tier on the uninstrumented build (detects corrupted
+accounting, wrong data or crashes); thorough tier additionally under ThreadSanitizer (native driver native/C38/cache_tsan_main.cc
+against the tsan build; detects data races in the schedules the OS happens to produce - no schedule control). HasAsset returns
+a pointer into the cache that another thread may invalidate; the concurrent drivers therefore never dereference it. Behaviour the
 header leaves open (same-timestamp re-insert whose new size would not fit) is recorded as an observation and only checked for
 internal consistency. The global cache used by the compiler (mj_getCache) is exercised only through the class. Trusted: the
 wrapper native/C38/cache_wrap.cc, ctypes, the verification build.'''
